@@ -68,13 +68,13 @@ def ble_time_bounds(ctx: Ctx) -> None:
 
     res = ctx.res
     idx = 0
-    for name in c16.OPS:
+    for name, dbg in [(n, d) for n in c16.OPS for d in (False, True)]:
         if name == "get_services":
             continue   # documented bound 30 s, same mechanism; covered by C16
         idx += 1
         if not ctx.mine(idx):
             continue
-        o = c16.run_case({"ops": [{"op": name, "addr": c16.A, "handle": 1}], "replies": [], "answer_disconnect": False})
+        o = c16.run_case({"ops": [{"op": name, "addr": c16.A, "handle": 1}], "replies": [], "answer_disconnect": False, "debug": dbg})
         if o.get("error"):
             res.inconclusive.append(f"BLE time bound scenario: {o['error']}")
             continue
@@ -82,7 +82,7 @@ def ble_time_bounds(ctx: Ctx) -> None:
         res.evaluations += 1
         res.count("baseline/ble-silent-proxy")
         res.count("oracle_evaluations")
-        res.sigs.add(f"ble-bound/{name}")
+        res.sigs.add(f"ble-bound/{name}/debug={dbg}")
         bound = c16.TIMEOUT + (0.5 if name == "device_connect" else 0.0)
         dur = None if rec.t_ret is None else rec.t_ret - rec.t_call
         res.count(f"observed/c09/ble-silent/{name}/{rec.outcome}/{type(rec.exc).__name__ if rec.exc else None}")
